@@ -78,7 +78,11 @@ CLAIMED = {
          "and `Err(e) => return` arms of the emitted program (DESIGN §1.3). Same assumptions as C05."),
    design="§3/C06"),
  "C08": dict(
-   text=("Partial claim — a thin slice: four of the documented rules, on the four functions that check them (the fourth — 'any &mut input on "
+   text=("Partial claim — a thin slice: five of the documented rules, on the five functions that check them (the fifth — 'two routes that can "
+         "match the same request', for two handlers registered for the SAME path whose method guards both admit one of the nine well-known "
+         "methods: PathRouter::detect_method_conflicts, four nested loops over an IndexMap grouping, returns Err and pushes a diagnostic, for "
+         "any number of handlers in any order, ANY-method routes included; the nine methods are pinned in the spec, not read from the "
+         "code's constant — the fourth — 'any &mut input on "
          "a constructor', CannotTakeMutReferenceError::check_callable: a callable with a mutable-reference input is refused, naming the FIRST "
          "such input, for any number of inputs — and the third — 'a singleton that depends "
          "on a request-scoped type', ConstructibleDb::verify_lifecycle_of_singleton_dependencies — lives in the C04 unit, obligations tagged @C08, "
@@ -99,7 +103,9 @@ CLAIMED = {
          "carry no-failing-input-found."),
    design="§3/C08"),
  "C07": dict(
-   text=("Partial claim — two thin slices. (1) Compile time, 'the fallback of the innermost blueprint whose prefix/domain covers the request "
+   text=("Partial claim — three thin slices. (0) Compile time, 'invokes the UNIQUE handler whose ... path pattern and method guard match': two "
+         "handlers registered for the same path that both admit a well-known method are refused (PathRouter::detect_method_conflicts, "
+         "obligation tagged @C07 in the C08 routes unit). (1) Compile time, 'the fallback of the innermost blueprint whose prefix/domain covers the request "
          "runs': on the real text of pavexc's ScopeBasedFallbackTree::find_fallback_id (a labelled descent over the fallback tree, rule "
          "N21) Verus discharges that the fallback chosen for a route is the one of a node whose scope encloses the route's scope and none "
          "of whose children does — the innermost registered fallback enclosing the route, never a sibling's — for every tree of the shape "
